@@ -510,6 +510,64 @@ func main() {
 			step("a store failure on the server is reported as a failure, not as missing", get(bad, nil), "error")
 		}
 	}
+	// ---- index transport end to end: the real index handler over a local index store, the real HTTP index client
+	{
+		idir := filepath.Join(*dir, "indexes")
+		os.RemoveAll(idir)
+		os.MkdirAll(idir, 0755)
+		lis, err := desync.NewLocalIndexStore(idir)
+		if err != nil {
+			panic(err)
+		}
+		if err := lis.StoreIndex("present.caibx", idx); err != nil {
+			panic(err)
+		}
+		os.WriteFile(filepath.Join(idir, "garbage.caibx"), []byte("this is not an index"), 0644)
+		os.MkdirAll(filepath.Join(idir, "dir.caibx"), 0755)
+		for _, writable := range []bool{false, true} {
+			isrv := httptest.NewServer(desync.NewHTTPIndexHandler(lis, writable, ""))
+			iu, _ := url.Parse(isrv.URL + "/")
+			ic, err := desync.NewRemoteHTTPIndexStore(iu, desync.StoreOptions{ErrorRetry: 0})
+			if err != nil {
+				panic(err)
+			}
+			step := func(name, res, want string) {
+				w.Emit(trace.M("ev", "proto", "step", fmt.Sprintf("index server (writable: %v): %s", writable, name), "res", res, "want", want))
+				n++
+			}
+			ix, err := ic.GetIndex("present.caibx")
+			res := classErr(err)
+			if err == nil && !(len(ix.Chunks) == len(idx.Chunks) && ix.Chunks[0].ID == idx.Chunks[0].ID) {
+				res = "okbad"
+			}
+			step("an index that is there arrives unchanged", res, "ok")
+			_, err = ic.GetIndex("absent.caibx")
+			step("GetIndex of an index that is not there reports it missing", classErr(err), "missing")
+			rd, err := ic.GetIndexReader("absent.caibx")
+			if err == nil {
+				rd.Close()
+			}
+			step("GetIndexReader of an index that is not there reports it missing", classErr(err), "missing")
+			_, err = ic.GetIndex("garbage.caibx")
+			step("an index file that cannot be decoded is a failure, not missing", classErr(err), "error")
+			_, err = ic.GetIndex("dir.caibx")
+			step("an index name that cannot be read (a directory) is a failure, not missing", classErr(err), "error")
+			if writable {
+				err = ic.StoreIndex("uploaded.caibx", idx)
+				step("upload of an index", classErr(err), "ok")
+				ix2, err := lis.GetIndex("uploaded.caibx")
+				res = classErr(err)
+				if err == nil && !(len(ix2.Chunks) == len(idx.Chunks) && ix2.Chunks[0].ID == idx.Chunks[0].ID) {
+					res = "okbad"
+				}
+				step("the uploaded index is in the store, unchanged", res, "ok")
+			} else {
+				err = ic.StoreIndex("refused.caibx", idx)
+				step("upload to a read-only index server is refused", classErr(err), "error")
+			}
+			isrv.Close()
+		}
+	}
 	// ---- casync protocol, in process: the real ProtocolServer over a store that fails / misses / delivers
 	for _, mode := range []string{"ok", "missing", "fails", "invalid"} {
 		cr, sw := io.Pipe()
